@@ -234,7 +234,7 @@ Definition comb_purl (s : bytes) :=
 (* ---------------- the family of user-written shapes (C14) ---------------- *)
 Inductive fconv := ConvAlways | ConvFail | ConvCustom.
 Inductive ftyrep := TyLower | TyRaw | TyInvalid.
-Inductive fhook := HkNothing | HkFail | HkClearName | HkNs | HkNoVer | HkVer | HkSub | HkEmptyQ | HkQual | HkBadCs | HkCs | HkNameX | HkType2 | HkBlankCs | HkClearQ | HkNsSlashes | HkSubDots.
+Inductive fhook := HkNothing | HkFail | HkClearName | HkNs | HkNoVer | HkVer | HkSub | HkEmptyQ | HkQual | HkBadCs | HkCs | HkNameX | HkType2 | HkBlankCs | HkClearQ | HkNsSlashes | HkSubDots | HkOddCs.
 Inductive ferr := FParse (e : parse_error) | FConv | FHook.
 Definition s_custom : bytes := ["c";"u";"s";"t";"o";"m"]%byte.
 Definition B1 (b : byte) : bytes := [b].
@@ -259,6 +259,7 @@ Definition fam_hook1 (tp : bytes * parts) (hk : fhook) : result ferr (bytes * pa
   | HkClearQ => Ok (t, with_quals p [])
   | HkNsSlashes => Ok (t, {| p_ns := ["/";"/"]%byte; p_name := p_name p; p_ver := p_ver p; p_quals := p_quals p; p_sub := p_sub p |})
   | HkSubDots => Ok (t, {| p_ns := p_ns p; p_name := p_name p; p_ver := p_ver p; p_quals := p_quals p; p_sub := [".";"/";"c";"/";"/";".";"."]%byte |})
+  | HkOddCs => Ok (setq s_checksum ["s";"h";"a";"1";":";"a";"b";"c"]%byte)      (* one lower-case entry with an odd number of hex digits *)
   end.
 Fixpoint fam_hook (hks : list fhook) (tp : bytes * parts) : result ferr (bytes * parts) :=
   match hks with [] => Ok tp | hk :: r => match fam_hook1 tp hk with Ok tp' => fam_hook r tp' | Err e => Err e end end.
